@@ -139,6 +139,12 @@ func c04Spaces(c *fw.Ctx) {
 				})
 			})
 		})
+	c.Space("offset-16384-typed", "one record of every name-bearing type starting at every offset 16290..16390 (its RDATA names, with suffixes new to the message, sweep across the 16384 pointer limit), followed by NS/MX/CNAME records with names below those suffixes; non-trivial: ≥1 pointer", true,
+		func(emit func(func(*fw.R))) {
+			genOffsetsTyped(16290, 16390, func(m *wire.Msg, at int, t uint16) {
+				emit(func(r *fw.R) { c04Check(r, m) })
+			})
+		})
 	c.Space("after-failed-pack", "state carried between calls: before each message of a 600-message subset of 'pairs' one of 6 messages is packed that FAILS after some names have been written (non-FQDN RDATA name, 64-octet label, oversize TXT, RDATA > 65535, bad NSEC bitmap order, nil record), with and without compression, then the message under test is packed and checked as usual; non-trivial: ≥1 pointer", true,
 		func(emit func(func(*fw.R))) {
 			bad := func(k int) *dns.Msg {
